@@ -118,6 +118,8 @@ func runC06(c *Ctx) {
 		}
 		gHash := equalIs("response.BlockHash() vs blockHash", find(cl, binops(eqOps, isRespHash, isReqHash)), true)
 		c.guarded(cl, gHash, 1, en, eff, 2, gDominate)
+		c.rule("C06.V4", "the ban of an invalid block\x27s sender is not lost to a concurrent lookup: "+banStoreDisciplineDoc, func() { c.banStoreDiscipline() })
+	c.rule("C06.V3", "the sender of an invalid block stays out: "+banKeyAgreementDoc, func() { c.banKeyAgreement() })
 		c.rule("C06.O5", "the retry of a block request still answers the caller: "+noJobLostDoc, func() { c.noJobLost() })
 		c.rule("C06.O4", "every response that carries the requested hash is examined on its own: the handler is one closure shared by all attempts and peers of a GetBlock call, so from the edge on which the response's hash equals the requested one every path to a return passes blockchain.CheckBlockSanity - nothing remembered from an earlier response (an earlier sender's invalid block, a flag) lets a later response be dropped unvalidated, which would discard an honest peer's block and leave a second bad sender unbanned", func() {
 			c.mustFollow(cl, "the response carries the requested hash", c.successEdges(gHash), callTo(c.funcObj(pBlockchain, "CheckBlockSanity")), "blockchain.CheckBlockSanity", nil, 1)
